@@ -4,6 +4,7 @@ CONSTANTS
   MaxLen = 3
   HistFmts = {"standard"}
   PrintFmts = {"standard", "historical", "canonical"}
+  ObsSeq <- ObsNone
 INVARIANT HistRoundTrip
 INVARIANT HistIndependent
 INVARIANT HistWellFormed
